@@ -264,6 +264,8 @@ async def _main(sim, sc, out):
 
 
 def run(sc):
+    if sc.get("mode") == "stop":
+        return _stop_run(sc)
     out = execute(_main, sc, step_cap=6_000_000, wall_s=180)
     if out["abort"]:
         out["violations"].append(violation(
@@ -272,5 +274,37 @@ def run(sc):
     return out
 
 
+STOP_EVERY = {"quick": 70, "thorough": 150}  # every n-th task is a stop sweep (C03's machinery and oracle)
+
+
+def _stop_tweak(sc, rng):
+    """jobs that fail and are retried / recurring jobs, graceful period 0: the forced cancellation lands around the
+    moment at which the worker applies the disposition"""
+    for j in sc["jobs"]:
+        if rng.random() < 0.7:
+            j.pop("by_s", None)
+            j["retries"] = rng.randint(1, 2)
+            j["beh"] = [{"do": "raise", "dur_us": rng.randint(0, 20_000)}, {"do": "raise", "dur_us": rng.randint(0, 5_000)},
+                        {"do": "return", "dur_us": 1000}]
+    sc["graceful_s"] = rng.choice([0, 0, 0.000002, 0.00001])
+    sc["messages_limit"] = None
+    sc["mode"] = "stop"
+
+
+def _stop_run(sc):
+    from . import c03
+
+    o = c03.run(sc)
+    for v in o["violations"]:
+        v["signature"] = "C04/stop/" + v["signature"].split("/", 1)[1]
+    return o
+
+
 def task(spec):
+    if spec["idx"] % STOP_EVERY.get(spec["tier"], 70) == 7:
+        # exactly one disposition per delivery also when the worker is stopped in the middle of it: the message is
+        # either disposed as the table says or given back unchanged, never both (no second copy, no double count)
+        from . import c03
+
+        return c03.task(spec, run=_stop_run, tweak=_stop_tweak)
     return cli.default_task(__import__(__name__, fromlist=["x"]), spec)
